@@ -36,9 +36,6 @@ type C17Script struct {
 	Events []C17Event `json:"events"`
 	Procs  int        `json:"procs"`  // GOMAXPROCS during the case
 	SlowMs int        `json:"slowMs"` // the application needs this many virtual ms to process a visible-services update
-	// Paired: this service (index, -1 = none) is registered on the hub with a fixed IPv4 address, so the
-	// hub patches the address list of the entry it was handed and tries to dial (nothing listens there)
-	Paired int `json:"paired"`
 }
 
 type svcModel struct {
@@ -112,11 +109,6 @@ func runC17(sc C17Script) *c17Result {
 	rd := &c17Reader{slow: time.Duration(sc.SlowMs) * time.Millisecond}
 	mgr := mdns.NewMDNS(localSKI, "b", "m", "t", "s", nil, "local-id", "local", 4711, nil, mdns.MdnsProviderSelectionAll)
 	h := hub.NewHub(rd, mgr, 4711, tls.Certificate{}, api.NewServiceDetails(localSKI))
-	if sc.Paired >= 0 {
-		ski := svcTxt(sc.Paired)["ski"]
-		h.ServiceForSKI(ski).SetIPv4("127.0.0.1")
-		h.RegisterRemoteSKI(ski)
-	}
 	defer h.Shutdown()
 	fp := &FakeProvider{}
 	if err := mgr.VerifStartWithProvider(fp, h); err != nil {
@@ -293,8 +285,8 @@ func judgeC17(t *testing.T, sc C17Script) (key, msg string, res *c17Result) {
 var c17Addrs = []string{"192.168.1.10", "192.168.1.11", "10.0.0.5", "2001:db8::1", "2001:db8::2", "fe80::1", "fe80::abcd"}
 
 func genC17(t *rapid.T) C17Script {
-	sc := C17Script{Procs: rapid.SampledFrom([]int{1, 2, 16}).Draw(t, "procs"), SlowMs: rapid.SampledFrom([]int{0, 0, 0, 2}).Draw(t, "slowMs"),
-		Paired: -1} // dialling needs real sockets, which cannot live inside a bubble: the paired variant runs at hub level (TestC17Hub)
+	sc := C17Script{Procs: rapid.SampledFrom([]int{1, 2, 16}).Draw(t, "procs"), SlowMs: rapid.SampledFrom([]int{0, 0, 0, 2}).Draw(t, "slowMs")}
+	// (a registered service with a fixed IPv4 makes the hub dial, which needs real sockets: that variant runs at hub level, TestC17Hub)
 	n := rapid.IntRange(1, 30).Draw(t, "n")
 	for i := 0; i < n; i++ {
 		ev := C17Event{Svc: rapid.IntRange(0, 4).Draw(t, "svc"), Remove: rapid.IntRange(0, 3).Draw(t, "remove") == 0,
